@@ -179,10 +179,57 @@ async fn gen_sized<const N: usize>(root: &Path, bloom: u8, n_blobs: usize, seed:
     println!("{}: {} records", name, meta["answers"]["records_count"]);
 }
 
+/// key of length `len` for the bloom vectors: pattern 0 = mixed bytes, 1 = all 0xFF, 2 = all 0x00 but the last
+fn vector_key(len: usize, pattern: u64) -> Vec<u8> {
+    match pattern {
+        0 => (0..len).map(|i| ((i * 37 + len * 11 + 5) & 0xff) as u8).collect(),
+        1 => vec![0xFF; len],
+        _ => {
+            let mut k = vec![0u8; len];
+            k[len - 1] = 1;
+            k
+        }
+    }
+}
+
+fn vector_lengths() -> Vec<usize> {
+    let mut v: Vec<usize> = (1..=80).collect();
+    v.extend([95, 96, 97, 100, 127, 128, 129, 200, 255, 256, 257, 1000]);
+    v
+}
+
+/// Bloom filters of the pinned tree holding exactly one key, for every key length class of the hash function
+/// (1, 2-3, 4-8, 9-16, above 16 with every tail length) and two filter geometries: the serialised filter is recorded.
+fn gen_bloom_vectors(root: &Path) {
+    let cfgs = [
+        BloomConfig { elements: 50, hashers_count: 2, max_buf_bits_count: 1001, buf_increase_step: 7, preferred_false_positive_rate: 0.01 },
+        BloomConfig { elements: 30, hashers_count: 5, max_buf_bits_count: 333, buf_increase_step: 13, preferred_false_positive_rate: 0.001 },
+    ];
+    let mut out = Vec::new();
+    for (ci, cfg) in cfgs.iter().enumerate() {
+        for len in vector_lengths() {
+            for pattern in 0..3u64 {
+                let key = vector_key(len, pattern);
+                let b = pearl::Bloom::new(cfg.clone());
+                b.add(&key).expect("add");
+                let raw = b.to_raw().expect("to_raw");
+                out.push(json!({"cfg": ci, "len": len, "pattern": pattern, "raw": hexs(&raw)}));
+            }
+        }
+    }
+    let n = out.len();
+    std::fs::write(root.join("bloom_vectors.json"), serde_json::to_vec(&json!({"vectors": out})).unwrap()).unwrap();
+    println!("bloom_vectors.json: {} vectors", n);
+}
+
 #[tokio::main(flavor = "multi_thread", worker_threads = 2)]
 async fn main() {
     let root = PathBuf::from(std::env::args().nth(1).expect("usage: corpus_gen <out dir>"));
     std::fs::create_dir_all(&root).unwrap();
+    if std::env::var("CORPUS_ONLY_BLOOM_VECTORS").is_ok() {
+        gen_bloom_vectors(&root);
+        return;
+    }
     // pearl's default bloom configuration (filters of several hundred KiB per blob)
     if std::env::var("CORPUS_ONLY_DEFAULT_BLOOM").is_ok() {
         gen_sized::<8>(&root, 3, 2, 0xDEF_0008, 14, 10, 14, "").await;
@@ -196,6 +243,7 @@ async fn main() {
         return;
     }
     gen_sized::<8>(&root, 3, 2, 0xDEF_0008, 14, 10, 14, "").await;
+    gen_bloom_vectors(&root);
     let mut seed = 0xC17u64;
     for bloom in 0..3u8 {
         for n_blobs in 1..=4usize {
